@@ -746,6 +746,22 @@ def _take_along_axis(a, indices, axis):
     return SymArray(np.take_along_axis(a.data, _asarray(indices), axis), a.dt)
 
 
+@implements(np.put_along_axis)
+def _put_along_axis(arr, indices, values, axis):
+    # in-place scatter: indices are concrete (an argmax / argsort result has forked already), NumPy does the addressing
+    if not isinstance(arr, SymArray):
+        raise EngineGap('put_along_axis into a concrete array')
+    idx = _asarray(indices)
+    if isinstance(values, SymArray):
+        vals = values.data
+    elif isinstance(values, (R, C, SymBool)):
+        vals = np.array(values, dtype=object)
+    else:
+        vals = np.asarray(values)
+    np.put_along_axis(arr.data, idx, vals, axis)
+    return None
+
+
 @implements(np.broadcast_arrays)
 def _ba(*arrs, **kw):
     shapes = [np.shape(a) for a in arrs]
